@@ -306,7 +306,7 @@ func (req *identityReq) encode(w io.Writer) error {
 		return err
 	}
 	if err := writeUint64(w, req.cid); err != nil {
-		return nil
+		return err
 	}
 	return writeUint64(w, req.nid)
 }
